@@ -489,6 +489,8 @@ package redis
 
 //@ func handleSumResultCommand
 //@   prop C11 C03 C01
+//@   callpre MakeRequest @children-are-dispatched-in-argument-order 0 <= mrCount - old(mrCount) && mrCount - old(mrCount) < len(simpleReqs) && arg2 == simpleReqs[mrCount - old(mrCount)]
+//@   loop 0 invariant @dispatched-so-far mrCount == old(mrCount) + i
 //@   callpre MakeRequest @every-child-is-routed-by-its-own-key arg0 == u && arg2 != nil && sameslice(arg1, arg2.body.Array[1].Text)
 //@   alsoprop C12 C14 C04 : every-child-is-routed-by-its-own-key
 //@   callpre SetResponse @locally-built-replies-are-one-line oneline(arg1)
@@ -497,6 +499,9 @@ package redis
 
 //@ func handleMSet
 //@   prop C11 C03 C01
+//@   callpre MakeRequest @children-are-dispatched-in-argument-order 0 <= mrCount - old(mrCount) && mrCount - old(mrCount) < len(simpleReqs) && arg2 == simpleReqs[mrCount - old(mrCount)]
+//@   alsoprop C13 : children-are-dispatched-in-argument-order dispatched-so-far
+//@   loop 0 invariant @dispatched-so-far mrCount == old(mrCount) + i
 //@   callpre MakeRequest @every-child-is-routed-by-its-own-key arg0 == u && arg2 != nil && sameslice(arg1, arg2.body.Array[1].Text)
 //@   alsoprop C12 C14 C04 : every-child-is-routed-by-its-own-key
 //@   callpre SetResponse @locally-built-replies-are-one-line oneline(arg1)
@@ -505,6 +510,8 @@ package redis
 
 //@ func handleMGet
 //@   prop C11 C03 C01
+//@   callpre MakeRequest @children-are-dispatched-in-argument-order 0 <= mrCount - old(mrCount) && mrCount - old(mrCount) < len(simpleReqs) && arg2 == simpleReqs[mrCount - old(mrCount)]
+//@   loop 0 invariant @dispatched-so-far mrCount == old(mrCount) + i
 //@   callpre MakeRequest @every-child-is-routed-by-its-own-key arg0 == u && arg2 != nil && sameslice(arg1, arg2.body.Array[1].Text)
 //@   alsoprop C12 C14 C04 : every-child-is-routed-by-its-own-key
 //@   callpre SetResponse @locally-built-replies-are-one-line oneline(arg1)
@@ -877,6 +884,8 @@ package redis
 
 //@ func (*upstream).MakeRequest
 //@   prop C02 C03 C01
+//@   modifies all, smhas, smval, mrthCount, mrthAddr, mrthReq, mrthCmd, mrthPrevAddr, mrthPrevCmd, mrCount
+//@   ghostdef mrCount == old(mrCount) + 1
 //@   alsoprop C11 : no-panic
 //@   callpre chooseHost @the-host-is-chosen-for-the-routing-key-of-this-request arg0 == u && sameslice(arg1, routingKey) && arg2 == req
 //@   callpre MakeRequestToHost @the-request-goes-to-the-chosen-host arg0 == u && arg2 == req
